@@ -568,6 +568,15 @@ func (n *NSQD) DeleteExistingTopic(topicName string) error {
 
 	n.Lock()
 	delete(n.topicMap, topicName)
+	// the metadata persisted on behalf of topic.Delete() (see Notify) may have
+	// been written while the topic was still listed: persist again now that
+	// it is gone, otherwise a hard kill resurrects it
+	if !topic.ephemeral && atomic.LoadInt32(&n.isLoading) != 1 {
+		err := n.PersistMetadata()
+		if err != nil {
+			n.logf(LOG_ERROR, "failed to persist metadata - %s", err)
+		}
+	}
 	n.Unlock()
 
 	return nil
